@@ -16,7 +16,11 @@
 //! | `in` | `path.iter().transformed(&m).flattened(tol)` (`tf`), `path.iter().flattened(tol).transformed(&m)` (`ft`) |
 //!
 //! CASE  `n tol m11 m12 m21 m22 m31 m32 <prog>`; prog = `B x y a*n | L x y a*n | Q cx cy x y a*n |
-//!       C c1 c2 x y a*n | E 0/1`.
+//!       C c1 c2 x y a*n | E 0/1`, then the ADVICE: for every curve a route will flatten (in the
+//!       space where it is flattened) what lyon_geom's flattener returns for it —
+//!       `| FQ/FC <control points> k (from to t)*k` (`for_each_flattened_with_t`) and
+//!       `| IQ/IC <control points> k (point)*k` (the `Flattened` iterators).  The curve flattener
+//!       is a parameter of the C16 model and theorems (its own correctness is property C09).
 //! IMPL  calls (`B/L/Q/C/E` + attributes) or events (`b/l/q/c/e`, with attributes where the
 //!       route has them), routes separated by their labels.
 //! ORCL  on the real outputs: only lines after flattening; well nested / connected; every
@@ -38,6 +42,7 @@ use vh::fl::Gen;
 use vh::{CaseOut, Ctx, Oracle, Out, Rng};
 
 const EPS: f64 = 1.1920929e-7;
+const EXCLUDE_ILL: bool = true;
 
 // ---------------------------------------------------------------------------------------------
 // programs
@@ -450,7 +455,7 @@ fn well_conditioned(c: &Curve, tol: f32) -> bool {
 /// closed-form approximations that are accurate to a few percent, and cubics spend 0.4 + 0.8 of
 /// the tolerance (both listed under C09).
 fn check_tolerance(orc: &mut Oracle, site: &str, c: &Curve, tol: f32, segs: &[(Point, Point, f32)]) {
-    if segs.is_empty() || segs.len() > 2000 || !well_conditioned(c, tol) {
+    if segs.is_empty() || segs.len() > 2000 || (EXCLUDE_ILL && !well_conditioned(c, tol)) {
         return;
     }
     let allow = 1.25 * tol as f64 + 64.0 * EPS * c.mag().max(1e-30);
@@ -823,6 +828,81 @@ fn put_input(inp: &Input) -> Out {
 }
 
 // ---------------------------------------------------------------------------------------------
+// advice: what lyon_geom's flatteners return for the curves of the program
+
+/// the curves of a program (each from the TRUE current endpoint)
+fn curves_of(prog: &[Op]) -> Vec<Curve> {
+    let mut cur = point(0.0, 0.0);
+    let mut v = vec![];
+    for op in prog {
+        match op {
+            Op::B(p, _) | Op::L(p, _) => cur = *p,
+            Op::Q(c, p, _) => {
+                v.push(Curve::Q(cur, *c, *p));
+                cur = *p;
+            }
+            Op::C(c1, c2, p, _) => {
+                v.push(Curve::C(cur, *c1, *c2, *p));
+                cur = *p;
+            }
+            Op::E(_) => {}
+        }
+    }
+    v
+}
+
+/// `| (FQ|FC) <ctrl points> n (fx fy tx ty t)*n` for the callback flattener,
+/// `| (IQ|IC) <ctrl points> n (x y)*n` for the iterator.  The curve flattener is a parameter of
+/// the C16 model (lyon_geom's flattening is property C09): the model looks the curve up here.
+fn put_advice(o: &mut Out, fam: &str, inp: &Input) {
+    let m = inp.m;
+    let xprog = map_prog(&inp.prog, &|p| m.transform_point(p));
+    let (cb_src, cb_xf, it_src, it_xf) = match fam {
+        "wit" | "bf" | "na" | "pb" => (true, false, false, false),
+        "bn" => (true, true, false, false),
+        "it" => (true, false, true, false),
+        "in" => (false, false, true, true),
+        _ => (false, false, false, false),
+    };
+    let mut cb: Vec<Curve> = vec![];
+    let mut it: Vec<Curve> = vec![];
+    if cb_src {
+        cb.extend(curves_of(&inp.prog));
+    }
+    if cb_xf {
+        cb.extend(curves_of(&xprog));
+    }
+    if it_src {
+        it.extend(curves_of(&inp.prog));
+    }
+    if it_xf {
+        it.extend(curves_of(&xprog));
+    }
+    for c in &cb {
+        o.t("|").t(if c.is_cubic() { "FC" } else { "FQ" });
+        for p in c.pts() {
+            o.p(p);
+        }
+        let segs = vh::guarded(|| geom_cb(c, inp.tol)).unwrap_or_default();
+        o.u(segs.len() as u64);
+        for s in segs {
+            o.p(s.0).p(s.1).f(s.2);
+        }
+    }
+    for c in &it {
+        o.t("|").t(if c.is_cubic() { "IC" } else { "IQ" });
+        for p in c.pts() {
+            o.p(p);
+        }
+        let pts = vh::guarded(|| geom_iter(c, inp.tol)).unwrap_or_default();
+        o.u(pts.len() as u64);
+        for q in pts {
+            o.p(q);
+        }
+    }
+}
+
+// ---------------------------------------------------------------------------------------------
 // routes
 
 fn rec_run<W: PathBuilder>(wrap: impl FnOnce(Rec) -> W, n: usize, prog: &[Op]) -> Vec<Op> {
@@ -998,7 +1078,8 @@ fn emit(ctx: &mut Ctx, fam: &'static str, fixed: Option<Input>) {
             Some(i) => i,
             None => gen_input(rng),
         };
-        let args = put_input(&inp);
+        let mut args = put_input(&inp);
+        put_advice(&mut args, fam, &inp);
         let tag = format!("{} {}", fam, inp.tag);
         (args, tag, move || run_family(fam, &inp))
     });
@@ -1041,7 +1122,7 @@ fn main() {
             emit(&mut ctx, fam, Some(inp));
         }
     }
-    let k = ctx.n(600, 25000);
+    let k = ctx.n(2000, 25000);
     for _ in 0..k {
         for fam in ["bf", "bt", "bn", "na", "pb", "it", "ix", "in"] {
             emit(&mut ctx, fam, None);
